@@ -53,6 +53,19 @@ def _assignments(func):
     return out
 
 
+def _inline_temps(expr, assigns, depth=0):
+    """source text of expr after replacing every local name that is assigned exactly once by its value (fail-closed: a name
+    with several assignments, or a parameter, is left as it is)"""
+    class Sub(ast.NodeTransformer):
+        def visit_Name(self, node):
+            vals = assigns.get(node.id)
+            if isinstance(node.ctx, ast.Load) and vals and len(vals) == 1 and depth < 5:
+                return ast.parse(_inline_temps(vals[0], assigns, depth + 1), mode="eval").body
+            return node
+    import copy as _copy
+    return ast.unparse(Sub().visit(_copy.deepcopy(expr)))
+
+
 def _origin(expr, assigns, seen=()):
     """'self' | 'copy' (a frame made by self.copy()/self._create_df()/x.copy() or derived from one) |
     'same' (a re-assignment `x = x.method(...)` of the name being resolved) | None (unknown)"""
@@ -192,9 +205,26 @@ def col_facts(fn_tree):
                     disp = ast.unparse(v)
     if disp == "case_sensitive_expression.this.this":
         # the case-sensitive expression must be the un-normalised parse of the argument
-        ok = any(isinstance(n, ast.Assign) and dotted(n.targets[0]) == "case_sensitive_expression"
-                 and isinstance(n.value, ast.Call) and dotted(n.value.func) == "expression.to_column"
-                 and n.value.args and dotted(n.value.args[0]) == "column_name" for n in ast.walk(f))
+        def is_parse(v):
+            return (isinstance(v, ast.Call) and dotted(v.func) == "expression.to_column" and v.args
+                    and dotted(v.args[0]) == "column_name")
+
+        par = _parents(f)
+        assigns = {}
+        for n in ast.walk(f):
+            if isinstance(n, ast.Assign) and len(n.targets) == 1 and isinstance(n.targets[0], ast.Name):
+                assigns.setdefault(n.targets[0].id, []).append(n)
+        cse = assigns.get("case_sensitive_expression", [])
+        ok = len(cse) == 1 and is_parse(cse[0].value)
+        if not ok and len(cse) == 1 and isinstance(cse[0].value, ast.Name):
+            # case_sensitive_expression = parsed, where parsed = to_column(column_name) and may only be replaced for strings
+            # that parse as a function call (names with parentheses: outside the names this model covers)
+            src_assigns = assigns.get(cse[0].value.id, [])
+            ok = bool(src_assigns) and is_parse(src_assigns[0].value)
+            for a in src_assigns[1:]:
+                guard = par.get(a)
+                if not (isinstance(guard, ast.If) and ast.unparse(guard.test) == f"isinstance({cse[0].value.id}, expression.Func)"):
+                    ok = False
         if not ok:
             raise Untranslatable("functions.col: case_sensitive_expression is not to_column(column_name)")
         return True
@@ -274,16 +304,30 @@ def view_facts(df_tree, ses_tree):
     # schema
     f = next((st for st in cls.body if isinstance(st, ast.FunctionDef) and st.name == "schema"), None)
     src = ast.unparse(f)
+    out["schema_key_spark"] = False
     if "self.display_name_mapping.get(c.name, c.name)" in src:
         out["v_schema_map"] = True
+    elif "self._schema_display_name(c.name)" in src:
+        h = ast.unparse(py2v.find_method(df_tree, "BaseDataFrame", "_schema_display_name"))
+        for needle in ("exp.parse_identifier(", "dialect=self.session.output_dialect).name",
+                       "self.display_name_mapping.get(self.session._normalize_string(name), name)"):
+            if needle not in h:
+                raise Untranslatable(f"_schema_display_name: `{needle}` not found")
+        out["v_schema_map"] = True
+        out["schema_key_spark"] = True
     elif "display_name_mapping" not in src:
         out["v_schema_map"] = False
     else:
         raise Untranslatable("schema: unknown use of the display-name map")
     # session._collect
-    sc = ast.unparse(py2v.find_method(ses_tree, "_BaseSession", "_collect"))
-    if "self._cur.description" not in sc:
-        raise Untranslatable("session._collect: does not read the cursor description")
+    cf = py2v.find_method(ses_tree, "_BaseSession", "_collect")
+    sc = ast.unparse(cf)
+    # the names must come from the cursor's description: the loop that parses `col[0]` iterates over self._cur.description,
+    # possibly through temporaries introduced for readability (`cursor = self._cur; description = cursor.description`)
+    loops = [n for n in ast.walk(cf) if isinstance(n, ast.For) and "'case_sensitive'" in ast.unparse(n)
+             and isinstance(n.target, ast.Name) and f"{n.target.id}[0]" in ast.unparse(n)]
+    if len(loops) != 1 or _inline_temps(loops[0].iter, _assignments(cf)) != "self._cur.description":
+        raise Untranslatable("session._collect: the result columns are not read from the cursor description")
     out["v_collect_case"] = ("'case_sensitive': True" in sc and "to_string_literal=True" in sc
                              and "from_dialect='execution'" in sc and "to_dialect='output'" in sc)
     return out
@@ -359,6 +403,29 @@ def generate(repo: str):
         join_merges = True
     else:
         join_merges = False
+    hj = ast.unparse(py2v.find_method(df_tree, "BaseDataFrame", "_handle_join_column_names_only"))
+    if "join_column.expression.alias_or_name in cte.this.named_selects" in hj:
+        join_key_bare = True
+    elif "join_column.alias_or_name in cte.this.named_selects" in hj:
+        join_key_bare = False
+    else:
+        raise Untranslatable("_handle_join_column_names_only: the key lookup in the CTE's named_selects changed")
+    ob = ast.unparse(py2v.find_method(df_tree, "BaseDataFrame", "orderBy"))
+    if "parse_one(" in ob and "into=exp.Ordered" in ob and "identify=" not in ob:
+        orderby_identify = False      # keys are rendered to text and re-parsed: bare keyword names fail
+    elif "parse_one(" not in ob and "exp.Ordered(this=col.column_expression.copy(), desc=None if asc else True, nulls_first=asc)" in ob:
+        orderby_identify = True       # keys are built directly: every name is accepted
+    else:
+        raise Untranslatable("orderBy: ordering keys are built in a shape I do not know")
+    gb = py2v.find_method(df_tree, "BaseDataFrame", "groupBy")
+    gbs = ast.unparse(gb)
+    if ".set('table', None)" in gbs:
+        for needle in ("if 'joins' not in self.expression.args", "find_all(exp.Column)"):
+            if needle not in gbs:
+                raise Untranslatable(f"groupBy: drops table qualifiers in a shape I do not know (`{needle}` missing)")
+        groupby_unq = True
+    else:
+        groupby_unq = False
     td = ast.unparse(py2v.find_method(df_tree, "BaseDataFrame", "toDF"))
     if rec["MToDF"] != "RNone" and (".alias(" not in td or "exp.alias_(" in td):
         raise Untranslatable("toDF records display names but does not build its aliases with Column.alias")
@@ -400,7 +467,8 @@ def generate(repo: str):
              " | ".join(f"{m} => {('Some ' + kinds[m]) if kinds[m] else 'None'}" for m in ALL_METH) + " end.")
     L.append("Definition gen_cfg : cfg := mkCfg gen_rec_of gen_resel_of gen_kind_of "
              f"wrap_needed_df new_kind_df {b(w_df['init_wraps'])} wrap_needed_group new_kind_group {b(w_gr['init_wraps'])} "
-             f"{('(Some ' + gkind + ')') if gkind else 'None'} {b(col_ident)} {b(alias_raw)} {b(str_raw)} {b(join_merges)} "
+             f"{('(Some ' + gkind + ')') if gkind else 'None'} {b(col_ident)} {b(alias_raw)} {b(str_raw)} {b(join_merges)} {b(join_key_bare)} {b(views['schema_key_spark'])} "
+             f"{b(orderby_identify)} {b(groupby_unq)} "
              f"{b(views['v_columns_map'])} {b(views['v_sql_map'])} {b(views['v_schema_map'])} {b(views['v_collect_case'])}.")
     facts = [
         {"name": "rec_of", "from": "dataframe.py/session.py/group.py: calls of _update_display_name_mapping", "value": rec},
@@ -417,6 +485,9 @@ def generate(repo: str):
         {"name": "alias_disp_raw", "from": "column.py: Column.alias", "value": alias_raw},
         {"name": "str_disp_raw", "from": "dataframe.py: _update_display_name_mapping", "value": str_raw},
         {"name": "join_merges", "from": "dataframe.py: join", "value": join_merges},
+        {"name": "join_key_bare", "from": "dataframe.py: _handle_join_column_names_only", "value": join_key_bare},
+        {"name": "orderby_identify", "from": "dataframe.py: orderBy", "value": orderby_identify},
+        {"name": "groupby_unqualifies", "from": "dataframe.py: groupBy", "value": groupby_unq},
         {"name": "views", "from": "dataframe.py: columns/_set_display_names/_get_expressions/schema; session.py: _collect", "value": views},
     ]
     return "\n".join(L) + "\n", facts
